@@ -9,7 +9,7 @@ Tr == ndJsonDeserialize(IOEnv.TRACE_FILE)
 VARIABLE i
 B(x) == x = 1
 T(r) == [mode |-> r.mode, po2 |-> B(r.po2), bits |-> r.bits, int |-> r.int, sg |-> r.sg, hasmv |-> B(r.hasmv), mvk |-> r.mvk, bin01 |-> FALSE]
-O(r) == [src |-> r.src, bits |-> r.bits, int |-> r.int, kn |-> r.kn, hasmv |-> B(r.hasmv), mvk |-> r.mvk, bin01 |-> FALSE]
+O(r) == [src |-> r.src, bits |-> r.bits, int |-> r.int, kn |-> r.kn, hasmv |-> B(r.hasmv), mvk |-> r.mvk, mvm |-> r.mvm]
 MulVerdicts(ev) ==
   LET w == O(ev.w)  x == O(ev.x)  out == T(ev.out) IN
   \* (a +-1 type has no zero and no product of +-1 operands is zero)
